@@ -93,6 +93,8 @@ type Worker struct {
 	inInit           bool
 	fastOne, fastTwo int64
 	pools map[*Value][]Value
+	lockDepth int
+	lockSnap  string
 	solverBase       struct {
 		sat, unsat, unknown int
 		t                   time.Duration
